@@ -21,7 +21,7 @@ MOD = "debian._deb822_repro.tokens"
 ATOMS = ["\n", " \n", "\t \n", "#c\n", "# \n", " x\n", "\tx y\n", " #n\n", "A: b\n", "A:\n", "A:b\n", "A:  b  \n", "a: c\n",
          "garbage\n", ": x\n", "A b\n", "Ä: ü\n", "A: b\u00a0c\n", "A: b\x0cc\n", "A: b\rc\n", "A: \u2028\n", " \u00a0\n", "\x0c\n",
          "A:: :\n", "-A: x\n", "#\n", "A: b\x0c\n", "A: b \u00a0\n", " x\x1f\n",
-         "X\x7fY: v\n", "\x80\u00ff\u2028: v\n"]
+         "X\x7fY: v\n", "\x80\u00ff\u2028: v\n", "\ufeffA: b\n", "\ufeff\n", "Source: source\n", "package: Package\n"]
 
 
 def poison(real_parse, real_tok):
@@ -42,11 +42,20 @@ def poison(real_parse, real_tok):
 
 def check_lines(real_parse, real_tok, lines, t, mode, form="list"):
     import io
-    give = {"list": lambda: lines, "generator": lambda: (l for l in lines), "text file object": lambda: io.StringIO("".join(lines))}[form]
+    give = {"list": lambda: lines, "generator": lambda: (l for l in lines), "text file object": lambda: io.StringIO("".join(lines)),
+            "list of UTF-8 bytes lines": lambda: [l.encode("utf-8") for l in lines],
+            "binary file object": lambda: io.BytesIO("".join(lines).encode("utf-8"))}[form]
     try:
         doc = real_parse(give(), accept_files_with_error_tokens=True, accept_files_with_duplicated_fields=True)
         dumped = doc.dump()
         toks = "".join(tk.text for tk in real_tok(give()))
+        if form != "list":
+            # the other ways of getting the text out: dump into a binary file object, convert_to_text()
+            fd = io.BytesIO()
+            doc.dump(fd)
+            if fd.getvalue().decode("utf-8") != dumped or doc.convert_to_text() != dumped:
+                return t.failed("dump(fd) / convert_to_text() differ from dump()", lines=lines, mode=mode, lines_given_as=form,
+                                dump=dumped, dump_fd=fd.getvalue().decode("utf-8", "replace"), convert_to_text=doc.convert_to_text())
     except Exception as e:
         return t.failed("accepting parser raised %r" % (e,), lines=lines, mode=mode, lines_given_as=form)
     expect = "".join(lines) if mode != "none-terminated" else "".join(l + "\n" for l in lines)
@@ -113,7 +122,7 @@ def run(ctx):
               "all sequences of <= %d lines over %d representatives (blank, whitespace-only incl. NBSP / form feed, comments, "
               "continuation lines, fields with/without value and odd spacing, case-variant duplicate fields, garbage, non-ASCII, "
               "values containing NBSP / FF / CR / U+2028) in three termination modes (all terminated, last line unterminated, "
-              "none terminated [>= 2 lines]; every fifth sequence also as a generator and as an open text file; a failing parse every 97 "
+              "none terminated [>= 2 lines]; every fifth sequence also as a generator, an open text / binary file and a list of bytes lines, written out with dump(fd) and convert_to_text() too; a failing parse every 97 "
               "sequences) + seeded longer sequences; non-trivial = distinct (sequence, mode) with >= 2 lines"
               % (N, len(ATOMS)), "<= %d lines exhaustive%s, longer seeded" % (N, " (length 3 sampled)" if ctx.tier == "quick" else ""))
     seqs = [list(s) for n in range(1, N + 1) for s in itertools.product(ATOMS, repeat=n)]
@@ -128,7 +137,7 @@ def run(ctx):
             poison(repro.parse_deb822_file, real.tokenize_deb822_file)       # a failed parse in between must leave nothing behind
         if n_seq % 5 == 0:
             # the same lines handed over as a generator / as an open text file (a file is split at "\n" only)
-            for form in ("generator", "text file object"):
+            for form in ("generator", "text file object", "list of UTF-8 bytes lines", "binary file object"):
                 if check_lines(repro.parse_deb822_file, real.tokenize_deb822_file, list(s), t, "terminated", form):
                     stop = True
                     break
